@@ -11,6 +11,7 @@ import os
 import shutil
 from copy import deepcopy
 from threading import RLock
+from collections.abc import Mapping
 from types import MappingProxyType
 from typing import FrozenSet
 
@@ -239,7 +240,7 @@ class _StatePointDict(JSONAttrDict):
         except json.JSONDecodeError:
             raise JobsCorruptedError([job_id])
 
-        if calc_id(data) != job_id:
+        if not isinstance(data, Mapping) or calc_id(data) != job_id:
             raise JobsCorruptedError([job_id])
 
         with self._suspend_sync:
